@@ -274,6 +274,327 @@ def mon_C20(ctx, ops, states):
     return bad
 
 
+
+def eff_pstate(pre, cfg):
+    """patch state a critical section of this process would load from `pre`"""
+    if cfg is None or state_reset(None, pre, cfg['rel']):
+        return dict(lb=None, nb=None, cb=None, bad=[])
+    return pstate(pre)
+
+
+def listed(o):
+    r = o.get('resp')
+    return list(r['rb']) if r and r['rb'] else []
+
+
+def dmg_num(o):
+    if o['kind'] == 'dmg' and o['what'] in ('delfile', 'deldir', 'setart'):
+        return int(o['args'][0])
+    return None
+
+
+def state_dmg(o):
+    return o['kind'] == 'dmg' and o['what'] in ('pj', 'sj')
+
+
+# ------------------------------------------------------------------ C09
+def mon_C09(ctx, ops, states):
+    w = Walk(ctx, ops, states)
+    bad = []
+    sel = None
+    for i, o, pre, st, cfg in w.steps():
+        k = o['kind']
+        ps = eff_pstate(pre, cfg) if cfg else pstate(pre)
+        # does this op end the window?
+        if sel is not None:
+            ends = False
+            if k == 'update' and st['out'] == '1':
+                ends = True
+            if k == 'failure' and cfg and ps['cb'] and ps['cb']['num'] == sel:
+                ends = True
+            if k == 'init' and st['out'] == 'true':
+                if state_reset(o, pre, o['rel']) or (pstate(pre)['cb'] and pstate(pre)['cb']['num'] == sel) or o['key'] != selkey:
+                    ends = True
+            if k in ('check', 'update') and cfg and sel in listed(o):
+                ends = True
+            if dmg_num(o) == sel or state_dmg(o):
+                ends = True
+            if cfg and k not in ('init', 'kill', 'dmg', 'auto') and state_reset(o, pre, cfg['rel']):
+                ends = True
+            if ends:
+                sel = None
+            else:
+                nb = pstate(st)['nb']
+                if nb is None or nb['num'] != sel:
+                    bad.append((i, 'C09: patch %d was installed and nothing concerned it, but after `%s` the selection is %s' % (sel, o['raw'][:60], num(nb))))
+                    sel = None
+                elif k == 'nextnum' and cfg and st['out'] != str(sel):
+                    bad.append((i, 'C09: query returned %s while %d is installed' % (st['out'], sel)))
+                elif k == 'nextpath' and cfg and st['out'] != 'path:%d' % sel:
+                    bad.append((i, 'C09: query returned %s while %d is installed' % (st['out'], sel)))
+                elif k == 'update' and cfg and o['resp'] and o['resp']['patch'] and o['resp']['patch']['num'] == sel and o['resp']['avail']:
+                    if st['out'] != '0' or any(x.startswith('D:') for x in st['net']):
+                        bad.append((i, 'C09: already installed patch %d offered again: status %s, net %s' % (sel, st['out'], st['net'])))
+        if k == 'update' and st['out'] == '1' and cfg:
+            p = o['resp']['patch']
+            oksig = cfg['key'] is None or (cfg['key'], p['hash'].lower(), p['sig']) in ctx.sigs
+            sel = p['num'] if oksig else None
+            selkey = cfg['key']
+    return bad
+
+
+# ------------------------------------------------------------------ C03
+def mon_C03(ctx, ops, states):
+    w = Walk(ctx, ops, states)
+    bad = []
+    good = None
+    tag = None
+    for i, o, pre, st, cfg in w.steps():
+        k = o['kind']
+        ps = eff_pstate(pre, cfg) if cfg else pstate(pre)
+        if good is not None:
+            ends = False
+            if k == 'success' and cfg and ps['cb'] and ps['cb']['num'] != good:
+                ends = True
+            if k == 'failure' and cfg and ps['cb'] and ps['cb']['num'] == good:
+                ends = True
+            if k == 'init' and st['out'] == 'true' and (state_reset(o, pre, o['rel']) or (pstate(pre)['cb'] and pstate(pre)['cb']['num'] == good) or o['key'] != goodkey):
+                ends = True
+            if k in ('check', 'update') and cfg and good in listed(o):
+                ends = True
+            if k == 'update' and st['out'] == '1' and o['resp']['patch']['num'] == good:
+                ends = True
+            if dmg_num(o) == good or state_dmg(o):
+                ends = True
+            if cfg and k not in ('init', 'kill', 'dmg', 'auto') and state_reset(o, pre, cfg['rel']):
+                ends = True
+            if ends:
+                good = None
+            else:
+                lb = pstate(st)['lb']
+                if lb is None or lb['num'] != good:
+                    bad.append((i, 'C03: last good patch %d lost its record after `%s`' % (good, o['raw'][:60])))
+                    good = None
+                elif st['arts'].get(good) != tag:
+                    bad.append((i, 'C03: artifact of last good patch %d was removed or altered by `%s` (%s -> %s)' % (good, o['raw'][:60], tag, st['arts'].get(good))))
+                    good = None
+        if k == 'success' and cfg and ps['cb'] is not None:
+            n = ps['cb']['num']
+            a = st['arts'].get(n)
+            if a is not None and a.startswith('F%d.' % ps['cb']['size']):
+                good, tag, goodkey = n, a, cfg['key']
+            elif pre['arts'].get(n, '').startswith('F%d.' % ps['cb']['size']):
+                bad.append((i, 'C03: success report for %d destroyed its artifact' % n))
+        # fallback target for single drops
+        if cfg and k in ('failure',) and ps['cb'] and ps['nb'] and ps['nb']['num'] == ps['cb']['num'] and not state_dmg(o):
+            x = ps['cb']['num']
+            lb = ps['lb']
+            lbok = lb is not None and lb['num'] != x and pre['arts'].get(lb['num'], '').startswith('F%d.' % lb['size'])
+            want = lb['num'] if lbok and cfg['key'] is None else None
+            got = num(pstate(st)['nb'])
+            if cfg['key'] is None and got != want:
+                bad.append((i, 'C03: after %d failed the selection is %s, expected fallback target %s' % (x, got, want)))
+    return bad
+
+
+# ------------------------------------------------------------------ C10
+def mon_C10(ctx, ops, states):
+    w = Walk(ctx, ops, states)
+    bad = []
+    rolled = set()
+    for i, o, pre, st, cfg in w.steps():
+        k = o['kind']
+        if state_dmg(o):
+            rolled = set()
+        dn = dmg_num(o)
+        if dn is not None and o['what'] == 'setart':
+            rolled.discard(dn)
+        if k == 'update' and st['out'] == '1':
+            rolled.discard(o['resp']['patch']['num'])
+        if k in ('check', 'update') and cfg and o['resp'] is not None:
+            for x in listed(o):
+                if not (k == 'update' and st['out'] == '1' and o['resp']['patch']['num'] == x):
+                    rolled.add(x)
+        nb = pstate(st)['nb']
+        for x in sorted(rolled):
+            if x in st['arts']:
+                bad.append((i, 'C10: rolled back patch %d still has an artifact after `%s`' % (x, o['raw'][:60])))
+                rolled.discard(x)
+            elif nb and nb['num'] == x:
+                bad.append((i, 'C10: rolled back patch %d is selected after `%s`' % (x, o['raw'][:60])))
+                rolled.discard(x)
+        n = handed_out(o, pre, st)
+        if n is not None and n in rolled:
+            bad.append((i, 'C10: rolled back patch %d handed out' % n))
+    return bad
+
+
+# ------------------------------------------------------------------ C17
+def eff_evq(pre, cfg):
+    if cfg is None or state_reset(None, pre, cfg['rel']):
+        return []
+    return list(pre['sj']['evq'])
+
+
+def mon_C17(ctx, ops, states):
+    w = Walk(ctx, ops, states)
+    bad = []
+    for i, o, pre, st, cfg in w.steps():
+        k = o['kind']
+        evs = [x[2:] for x in st['net'] if x.startswith('E:')]
+        post_q = st['sj']['evq'] if isinstance(st['sj'], dict) else None
+        if cfg is None and k != 'init':
+            if evs:
+                bad.append((i, 'C17: events sent without configuration'))
+            continue
+        if k == 'init':
+            if cfg is not None or st['out'] != 'true':
+                continue
+            c2 = dict(rel=o['rel'], app=o['app'])
+            q = [] if state_reset(o, pre, o['rel']) else list(pre['sj']['evq'])
+            cb = None if state_reset(o, pre, o['rel']) else pstate(pre)['cb']
+            want = q + (['F.%d.%s.%s.i' % (cb['num'], hx(c2['app']), hx(c2['rel']))] if cb else [])
+            if post_q != want:
+                bad.append((i, 'C17: queue after init is %s, expected %s' % (post_q, want)))
+            continue
+        ps = eff_pstate(pre, cfg)
+        q = eff_evq(pre, cfg)
+        tagc = '%s.%s' % (hx(cfg['app']), hx(cfg['rel']))
+        if k == 'success':
+            want = []
+            if ps['cb'] and not (ps['lb'] and ps['lb']['num'] == ps['cb']['num']):
+                want = ['S.%d.%s.n' % (ps['cb']['num'], tagc)]
+            if evs != want:
+                bad.append((i, 'C17: success report sent %s, expected %s' % (evs, want)))
+            if post_q != q:
+                bad.append((i, 'C17: success report changed the event queue'))
+        elif k == 'failure':
+            want = q + (['F.%d.%s.e' % (ps['cb']['num'], tagc)] if ps['cb'] else [])
+            if post_q != want:
+                bad.append((i, 'C17: queue after failure report is %s, expected %s' % (post_q, want)))
+            if evs:
+                bad.append((i, 'C17: failure report sent events directly'))
+        elif k == 'update':
+            net = st['net']
+            first = ['E:' + e for e in q[:3]]
+            if net[:len(first)] != first or len(net) <= len(first) or not net[len(first)].startswith('C:'):
+                bad.append((i, 'C17: update did not flush the 3 oldest queued events before the check: %s (queue %s)' % (net, q)))
+            if post_q != []:
+                bad.append((i, 'C17: queue not empty after update: %s' % post_q))
+            rest = [x for x in net[len(first) + 1:] if x.startswith('E:')]
+            if st['out'] == '1':
+                want = ['E:D.%d.%s.n' % (o['resp']['patch']['num'], tagc)]
+                if rest != want or net[-1] != want[0]:
+                    bad.append((i, 'C17: download event after install: got %s, expected %s last' % (rest, want)))
+            elif rest:
+                bad.append((i, 'C17: event %s sent by an update that did not install' % rest))
+        elif k not in ('dmg', 'kill'):
+            if evs:
+                bad.append((i, 'C17: `%s` sent events %s' % (k, evs)))
+            if k != 'check' and post_q is not None and post_q != q:
+                bad.append((i, 'C17: `%s` changed the event queue' % k))
+            if k == 'check' and post_q is not None and post_q != q:
+                bad.append((i, 'C17: check changed the event queue'))
+    return bad
+
+
+# ------------------------------------------------------------------ C18
+def mon_C18(ctx, ops, states):
+    w = Walk(ctx, ops, states)
+    bad = []
+    cur = None           # patch handed to the engine at this process's launch start
+    started = False
+    installed_since = False
+    for i, o, pre, st, cfg in w.steps():
+        k = o['kind']
+        ps = eff_pstate(pre, cfg) if cfg else pstate(pre)
+        if k == 'kill' or (k == 'init' and st['out'] == 'true'):
+            cur, started, installed_since = None, False, False
+            continue
+        if cfg is None:
+            continue
+        if state_dmg(o) or state_reset(o, pre, cfg['rel']):
+            cur = None
+            started = True   # stop judging this process
+            continue
+        if k == 'start':
+            if started:
+                cur = None
+            else:
+                started = True
+                h = handed_out(o, pre, st)
+                cb = pstate(st)['cb']
+                cur = cb['num'] if cb is not None else None
+                if cur is not None and not st['arts'].get(cur, '').startswith('F'):
+                    cur = None
+                installed_since = False
+            continue
+        if cur is not None:
+            if k == 'failure' or cur in listed(o) or dmg_num(o) == cur:
+                cur = None
+                continue
+            if k == 'update' and st['out'] == '1':
+                if o['resp']['patch']['num'] == cur:
+                    cur = None
+                    continue
+                installed_since = True
+            if k == 'curnum' and st['out'] != str(cur):
+                bad.append((i, 'C18: patch %d is running but current patch is reported as %s' % (cur, st['out'])))
+            if k == 'nextnum' and not installed_since and st['out'] != str(cur):
+                bad.append((i, 'C18: restart required reported (next=%s, current=%d) without any install' % (st['out'], cur)))
+            if k == 'update' and st['out'] == '1':
+                pass
+        if not started and k == 'curnum':
+            want = num(ps['lb']) if ps['cb'] is None else ps['cb']['num']
+            if st['out'] != str(want or 0):
+                bad.append((i, 'C18: after restart current patch is %s, last good is %s' % (st['out'], want)))
+    return bad
+
+
+# ------------------------------------------------------------------ C19
+def mon_C19(ctx, ops, states):
+    w = Walk(ctx, ops, states)
+    bad = []
+    for i, o, pre, st, cfg in w.steps():
+        k = o['kind']
+        if k == 'init' and st['out'] == 'true':
+            if state_reset(o, pre, o['rel']):
+                if st['arts']:
+                    bad.append((i, 'C19: artifacts %s survive a release change' % sorted(st['arts'])))
+            else:
+                cb = pstate(pre)['cb']
+                if cb and cb['num'] in st['arts']:
+                    bad.append((i, 'C19: artifact of crashed patch %d not removed' % cb['num']))
+            continue
+        if cfg is None or state_reset(o, pre, cfg['rel']):
+            continue
+        ps = pstate(pre)
+        if k == 'success' and ps['cb']:
+            b = ps['cb']['num']
+            nb = num(pstate(st)['nb'])
+            for a in st['arts']:
+                if a < b and a != nb:
+                    bad.append((i, 'C19: artifact %d (< %d) remains after boot success and is not the selection' % (a, b)))
+            if st['junk']:
+                bad.append((i, 'C19: unrecognised directory remains after boot success'))
+        if k == 'failure' and ps['cb'] and ps['cb']['num'] in st['arts']:
+            bad.append((i, 'C19: artifact of failed patch %d not removed' % ps['cb']['num']))
+        if k in ('check', 'update') and o['resp'] is not None:
+            for x in listed(o):
+                if x in st['arts'] and not (k == 'update' and st['out'] == '1' and o['resp']['patch']['num'] == x):
+                    bad.append((i, 'C19: artifact of rolled back patch %d not removed' % x))
+        if k == 'update' and st['out'] == '1' and not listed(o):
+            n = o['resp']['patch']['num']
+            x, l, cb = ps['nb'], ps['lb'], ps['cb']
+            xvalid = x is not None and pre['arts'].get(x['num'], '').startswith('F%d.' % x['size'])
+            if x and l and xvalid and cfg['key'] is None and x['num'] != l['num'] and x['num'] != n and not (cb and cb['num'] == x['num']):
+                if x['num'] in st['arts']:
+                    bad.append((i, 'C19: superseded never-booted patch %d not removed at the install of %d' % (x['num'], n)))
+                if l['num'] != n and st['arts'].get(l['num']) != pre['arts'].get(l['num']):
+                    bad.append((i, 'C19: install of %d touched the last good patch %d' % (n, l['num'])))
+    return bad
+
+
 MONITORS = {
     'C01': mon_C01,
     'C02': mon_C02,
